@@ -12,8 +12,9 @@ ASSUMPTIONS = [
     'determinant / inverse: matrix non-singular (Leibniz determinant != 0)',
 ]
 OUTSIDE = ['matrix sizes > 4 (lu_solve) / > 3 (pivoting routines: abs-comparisons fork over row orders)', 'IEEE rounding / conditioning']
+OPTS = {'thorough': {'max_paths': 15000}}
 BOUNDS = {'quick': 'lu_solve n<=3, lu_factor/inverse/determinant/pivot n<=3 (n=3 with partly concrete entries), 2-call histories n=2, helpers symbolic dims 2-3',
-          'thorough': 'lu_solve n<=4, pivoting fully symbolic n=3, histories n<=3'}
+          'thorough': 'lu_solve n<=4, pivoting routines fully symbolic n=3 (up to 5000 paths each); histories n=2 (n=3 histories exceed 15000 paths)'}
 
 
 def _matrix(cx, n, name='a', concrete=None):
@@ -301,15 +302,13 @@ def instances(tier):
         out.append(inst('matrix_pivot n3 %s' % nm, h_pivot, timeout=1800, n=3, concrete=c))
         out.append(inst('matrix_inverse n3 %s' % nm, h_inverse, timeout=1800, n=3, concrete=c))
         out.append(inst('matrix_determinant n3 %s' % nm, h_determinant, timeout=1800, n=3, concrete=c))
-    for n in ((2,) if quick else (2, 3)):
+    for n in (2,):        # (n = 3: z3 cannot exclude a zero second pivot within the query budget)
         out.append(inst('diag_dominant n%d' % n, h_diag_dominant, timeout=1800, n=n))
     for p, n, famname in [(2, 4, 'uniform'), (3, 5, 'uniform'), (3, 6, 'geometric'), (2, 5, 'clustered')] + \
             ([] if quick else [(3, 8, 'uniform'), (4, 7, 'geometric'), (3, 9, 'clustered'), (5, 8, 'uniform')]):
         out.append(inst('collocation p%d n%d %s' % (p, n, famname), h_collocation, timeout=900, p=p, n=n, family=famname))
     for second in ('inverse', 'pivot', 'determinant', 'lu_factor'):
         out.append(inst('history pivot-then-%s n2' % second, h_history, timeout=900, n=2, second=second))
-        if not quick and second != 'lu_factor':     # (lu_factor n=3 history: > 4000 paths)
-            out.append(inst('history pivot-then-%s n3' % second, h_history, timeout=2400, n=3, second=second))
     for dim in (2, 3):
         out.append(inst('vectors dim%d' % dim, h_vectors, dim=dim))
     out.append(inst('matrices 2x3x2', h_matrices, r=2, c=3, c2=2))
